@@ -352,7 +352,7 @@ def tasks(tier):
     return [('contracts.c15', 'lock', ()), ('contracts.c15', 'rlock', ()), ('contracts.c15', 'semaphore', ()),
             ('contracts.c15', 'barrier', ()),
             ('contracts.traces', 'transact_block', ('C15',))] + \
-        __import__('contracts.c03', fromlist=['x']).dependency_tasks('C15', ['add', 'delete', 'get', 'set', '__contains__'])    # RLock / BoundedSemaphore steps are one block each
+        __import__('contracts.c03', fromlist=['x']).dependency_tasks('C15', ['add', 'delete', 'get', 'set', '__contains__'], tier=tier)    # RLock / BoundedSemaphore steps are one block each
 
 
 def meta(results, tier):
